@@ -573,7 +573,13 @@ impl<'a> Gen<'a> {
             }
             11 => {
                 // assignment as an expression
-                if let Some((c, _)) = self.assignable_cell(Some(&Ty::mutc(Ty::Int))).map(|(n, t)| (E::Var(n), t)) {
+                let wide = Ty::mutc(Ty::union([Ty::Int, Ty::Str]));
+                if let Some((c, _)) = self.assignable_cell(Some(&wide)).filter(|_| self.rng.chance(1, 3)).map(|(n, t)| (E::Var(n), t)) {
+                    // `c = v` yields v at v's own type even when the cell is wider (`mut int|string`)
+                    let rhs = self.expr(&Ty::Int, d).0;
+                    self.tag("assign:=:wider-cell");
+                    (E::Bin("=", Box::new(c), Box::new(rhs)), Ty::Int)
+                } else if let Some((c, _)) = self.assignable_cell(Some(&Ty::mutc(Ty::Int))).map(|(n, t)| (E::Var(n), t)) {
                     let op = *self.rng.pick(&["=", "+=", "-=", "*=", "&=", "|=", "^=", "/=", "%=", "<<=", ">>=", "**="]);
                     let rhs = if matches!(op, "/=" | "%=" | "<<=" | ">>=" | "**=") && !self.pct(self.p.err) {
                         E::Int(self.rng.range(1, 4))
@@ -1112,7 +1118,12 @@ impl<'a> Gen<'a> {
                     tys.push(t);
                 }
                 let (b, t) = self.value_block(goal, d);
-                arms.push(Arm::Other(Box::new(b)));
+                // the default arm usually comes last; anywhere else it makes the arms after it unreachable
+                let at = if !arms.is_empty() && self.pct(20) { self.rng.below(arms.len()) } else { arms.len() };
+                if at < arms.len() {
+                    self.tag("stm:match-default-not-last");
+                }
+                arms.insert(at, Arm::Other(Box::new(b)));
                 tys.push(t);
                 self.tag("stm:match-value");
                 (S::Match(scr, arms), Ty::union(tys))
@@ -1136,6 +1147,14 @@ impl<'a> Gen<'a> {
                     self.pop();
                     arms.push(Arm::Type(n, m, Box::new(b)));
                     tys.push(t);
+                }
+                if self.pct(20) {
+                    // a default arm among the type arms (first, between or last)
+                    let (b, t) = self.value_block(goal, d);
+                    let at = self.rng.below(arms.len() + 1);
+                    arms.insert(at, Arm::Other(Box::new(b)));
+                    tys.push(t);
+                    self.tag("stm:match-default-among-type-arms");
                 }
                 self.tag("stm:match-type");
                 (S::Match(scr, arms), Ty::union(tys))
